@@ -9,7 +9,7 @@ import z3
 from . import theory as T
 from . import folds as FO
 from . import lists as LS
-from .values import (SV, Ver, DictVal, SetVal, ListVal, PObj, ItemsView, AssignVal, Closure, BoundMethod, ClassRef,
+from .values import (SV, Ver, DictVal, SetVal, ListVal, PObj, ItemsView, Assoc, AssignVal, Closure, BoundMethod, ClassRef,
                      BuiltinClass, Builtin, ModuleRef, SuperRef, SeqIter, Unsupported, PathInfeasible, VerifBug,
                      PyExc, is_num, zreal, zint, is_intlike)
 
@@ -314,6 +314,11 @@ def bi_set(eng, args, kwargs, fr):
         return SeqIter("setofkey", v)
     if isinstance(v, tuple):
         return SeqIter("setofkey", SV(eng.as_key(v), "key"))
+    if isinstance(v, ItemsView) and v.mode == "values":
+        c = eng.concrete_iter(v)
+        if c is not None:
+            return frozenset(c)
+        raise Unsupported("set of the values of a dict of unknown size")
     if isinstance(v, SeqIter) and v.kind == "genexp":
         mode, key = recognize_member_filter(eng, v)
         return SeqIter("setfiltered", (mode, key))
@@ -857,6 +862,8 @@ def eval_comprehension(eng, n, fr, kind):
         if kind == "dict":
             if all(isinstance(k, (int, str)) for k, _ in out):
                 return dict(out)
+            if all(isinstance(k, SV) and k.t in ("real", "int") for k, _ in out):
+                return Assoc(out)
             d = eng.alloc(DictVal(FO.empty(eng, T.Key, T.Real)))
             for k, v in out:
                 eng.raw_setitem(d, k, v)
@@ -1028,6 +1035,26 @@ def fold_genexp(eng, gen, how, start):
             raise PathInfeasible()
         total = FO.fold(eng, ver, spec["fold"])
         return eng.binop(ast.Add(), start, SV(total, "real"))
+    if isinstance(src, ItemsView) and how == "all" and not g.ifs:
+        # all(pred(item) for item in d.values()/items()/keys()): recognised when pred is `value == c` for a literal c
+        ver = src.ver
+        k = eng.fresh("key" if ver.ksort == T.Key else "label", "k")
+        vv = z3.Select(ver.val, k.e)
+        v = SV(vv, "real" if ver.vsort == T.Real else "int")
+        item = {"items": (k, v), "keys": k, "values": v}[src.mode]
+        sub = Frame(fr.closure, dict(fr.locals), fr.self_obj, fr.defining_cls)
+        eng.assign(g.target, item, sub)
+        eng.spec += 1
+        try:
+            phi = _to_z3bool(eng.tobool(eng.eval(n.elt, sub)))
+        finally:
+            eng.spec -= 1
+        consts = sorted({c.value for c in ast.walk(n.elt) if isinstance(c, ast.Constant) and isinstance(c.value, (int, float))
+                         and not isinstance(c.value, bool)})
+        for c in consts + [-c for c in consts]:
+            if not eng.feasible(phi != (zreal(v) == zreal(c))):
+                return SV(FO.fold(eng, ver, FO.valseq_fold(c)), "bool")
+        raise Unsupported("all(...) over a dict view: predicate not recognised as `value == constant`")
     raise Unsupported("%s over symbolic generator" % how)
 
 
